@@ -567,7 +567,13 @@ impl<'a> Gen<'a> {
         ins.push((l, true));
       }
     }
-    let extra = if ins.is_empty() { self.rng.range(1, 3) } else { self.rng.below(2) };
+    let extra = if !ins.is_empty() {
+      self.rng.below(2)
+    } else if self.rng.chance(1, 12) {
+      self.rng.range(4, 9) // many inputs
+    } else {
+      self.rng.range(1, 3)
+    };
     for _ in 0..extra {
       if self.live.is_empty() {
         break;
